@@ -1,0 +1,75 @@
+//go:build verif
+
+package introspection
+
+// Contracts for the govc verification engine (see /verif/DESIGN.md). Comment-only; guarded by the build tag `verif`.
+
+// ---- C14 (introspection side): what the __Type resolvers report is read off the same graphql.Type value that
+// PrepareQuery validates against and resolveBatch executes against. kind: one advertised kind per concrete type;
+// ofType: the wrapped type of List / NonNull and nothing else; name: the type's own name.
+
+// a graphql.Type never holds a typed nil pointer (schemabuilder only ever stores &graphql.X{...} values)
+//@ nonnil elem *graphql.Object, elem *graphql.Union, elem *graphql.Scalar, elem *graphql.Enum, elem *graphql.List, elem *graphql.NonNull, elem *graphql.InputObject, elem *graphql.Field
+
+//@ func introspection.registerType$1
+//@   ensures (t.Inner is *graphql.Object) <==> result == "OBJECT"
+//@   ensures (t.Inner is *graphql.Union) <==> result == "UNION"
+//@   ensures (t.Inner is *graphql.Scalar) <==> result == "SCALAR"
+//@   ensures (t.Inner is *graphql.Enum) <==> result == "ENUM"
+//@   ensures (t.Inner is *graphql.List) <==> result == "LIST"
+//@   ensures (t.Inner is *graphql.NonNull) <==> result == "NON_NULL"
+//@   ensures (t.Inner is *graphql.InputObject) <==> result == "INPUT_OBJECT"
+
+//@ func introspection.registerType$2
+//@   assigns nothing
+//@   ensures (t.Inner is *graphql.Object) ==> result == addr(t.Inner.(*graphql.Object).Name)
+//@   ensures (t.Inner is *graphql.Union) ==> result == addr(t.Inner.(*graphql.Union).Name)
+//@   ensures (t.Inner is *graphql.Scalar) ==> result == addr(t.Inner.(*graphql.Scalar).Type)
+//@   ensures (t.Inner is *graphql.Enum) ==> result == addr(t.Inner.(*graphql.Enum).Type)
+//@   ensures (t.Inner is *graphql.List) || (t.Inner is *graphql.NonNull) ==> result == nil
+
+//@ func introspection.registerType$8
+//@   assigns nothing
+//@   ensures (t.Inner is *graphql.List) ==> result != nil && fresh(result) && result.Inner == t.Inner.(*graphql.List).Type
+//@   ensures (t.Inner is *graphql.NonNull) ==> result != nil && fresh(result) && result.Inner == t.Inner.(*graphql.NonNull).Type
+//@   ensures !(t.Inner is *graphql.List) && !(t.Inner is *graphql.NonNull) ==> result == nil
+
+// enumValues: the advertised names are exactly the names in the enum's ReverseMap - the table resolveEnumBatch
+// answers from (graphql.resolveEnumBatch, call outputNode.Fill assert).
+//@ func introspection.registerType$9
+//@   assigns nothing
+//@   ensures !(t.Inner is *graphql.Enum) ==> result == nil
+//@   ensures (t.Inner is *graphql.Enum) ==> forall k interface{} :: (k in t.Inner.(*graphql.Enum).ReverseMap) ==> exists i int :: 0 <= i && i < len(result) && result[i].Name == t.Inner.(*graphql.Enum).ReverseMap[k]
+//@   ensures (t.Inner is *graphql.Enum) ==> forall i int :: 0 <= i && i < len(result) ==> exists k interface{} :: (k in t.Inner.(*graphql.Enum).ReverseMap) && result[i].Name == t.Inner.(*graphql.Enum).ReverseMap[k]
+//@   loop 1 invariant enumVals == nil || (fresh(enumVals) && allocated(enumVals))
+//@   ghost idx map[interface{}]int       // witness: where the entry for key k was appended
+//@   call Sprintf ghost idx[k] = len(enumVals)
+//@   loop 1 invariant forall k interface{} :: visited[k] ==> 0 <= idx[k] && idx[k] < len(enumVals) && enumVals[idx[k]].Name == t.ReverseMap[k]
+//@   loop 1 invariant forall i int :: 0 <= i && i < len(enumVals) ==> exists k interface{} :: (k in t.ReverseMap) && enumVals[i].Name == t.ReverseMap[k]
+
+// fields: every field of the object is advertised under its own name with the type it resolves to (the Type that
+// PrepareQuery#2 validates sub-selections against and executeBatchWorkUnit/resolveBatch execute), and nothing else is.
+//@ func introspection.registerType$7
+//@   assigns nothing
+//@   ghost idx map[string]int       // witness: where the entry for field k was appended
+//@   call Slice#1 ghost idx[name] = len(fields)
+//@   ensures !(t.Inner is *graphql.Object) ==> len(result) == 0
+//@   ensures (t.Inner is *graphql.Object) ==> forall k string :: (k in t.Inner.(*graphql.Object).Fields) ==> exists i int :: 0 <= i && i < len(result) && result[i].Name == k && result[i].Type.Inner == t.Inner.(*graphql.Object).Fields[k].Type
+//@   ensures (t.Inner is *graphql.Object) ==> forall i int :: 0 <= i && i < len(result) ==> (result[i].Name in t.Inner.(*graphql.Object).Fields) && result[i].Type.Inner == t.Inner.(*graphql.Object).Fields[result[i].Name].Type
+//@   loop 1 invariant fields == nil || (fresh(fields) && allocated(fields))
+//@   loop 1 invariant forall k string :: visited[k] ==> 0 <= idx[k] && idx[k] < len(fields) && fields[idx[k]].Name == k && fields[idx[k]].Type.Inner == t.Fields[k].Type
+//@   loop 1 invariant forall i int :: 0 <= i && i < len(fields) ==> (fields[i].Name in t.Fields) && fields[i].Type.Inner == t.Fields[fields[i].Name].Type
+//@   loop 2 invariant fields == nil || (fresh(fields) && allocated(fields))
+//@   loop 2 invariant args == nil || (fresh(args) && allocated(args))
+
+// possibleTypes: the advertised members of a union are exactly the member objects resolveUnionBatch dispatches to.
+//@ func introspection.registerType$5
+//@   assigns nothing
+//@   ensures !(t.Inner is *graphql.Union) ==> result == nil
+//@   ensures (t.Inner is *graphql.Union) ==> forall k string :: (k in t.Inner.(*graphql.Union).Types) ==> exists i int :: 0 <= i && i < len(result) && result[i].Inner == any(t.Inner.(*graphql.Union).Types[k])
+//@   ensures (t.Inner is *graphql.Union) ==> forall i int :: 0 <= i && i < len(result) ==> exists k string :: (k in t.Inner.(*graphql.Union).Types) && result[i].Inner == any(t.Inner.(*graphql.Union).Types[k])
+//@   loop 1 invariant fresh(types) && allocated(types)
+//@   ghost idx map[graphql.Type]int       // witness: where the entry for a member type was appended
+//@   call append ghost idx[any(typ)] = len(types)
+//@   loop 1 invariant forall k string :: visited[k] ==> 0 <= idx[any(t.Types[k])] && idx[any(t.Types[k])] < len(types) && types[idx[any(t.Types[k])]].Inner == any(t.Types[k])
+//@   loop 1 invariant forall i int :: 0 <= i && i < len(types) ==> exists k string :: (k in t.Types) && types[i].Inner == any(t.Types[k])
